@@ -955,6 +955,47 @@ func C04_args_scalar() {
 	c04Deliver(c.field, c.t, c.text, w, other, src, ik)
 }
 
+// C04_args_kind: a value of another structural kind - a symbol, a list or an
+// object - written where the declared type does not take one: as the whole
+// argument, as a list element or as an input-object field, from every source.
+// (Some of the combinations are well-kinded - a symbol for an enum, a list for
+// a list - and must then be accepted.)
+func C04_args_kind() {
+	cases := []struct {
+		field, text string
+		t           *ty
+		other       string
+	}{
+		{"fi", "Int", tyInt, "1"}, {"fn", "Int!", nn(tyInt), "1"}, {"ff", "Float", tyFloat, "2.5"}, {"fb", "Boolean", tyBool, "true"},
+		{"fs", "String", tyStr, `"zz"`}, {"fd", "ID", tyID, `"zz"`}, {"fe", "En", tyEn, "A"},
+		{"fl", "[Int]", lst(tyInt), "[1]"}, {"fle", "[En!]", lst(nn(tyEn)), "[A]"}, {"fll", "[[Int]]", lst(lst(tyInt)), "[[1]]"},
+		{"fo", "In", tyIn, "{r:1}"}, {"flo", "[In]", lst(tyIn), "[{r:1}]"},
+	}
+	c := cases[sym.Choice("case", len(cases))]
+	one := func() *wv { return &wv{k: wInt, i: 1, text: "1"} }
+	var alien *wv
+	switch sym.Choice("written kind", 4) {
+	case 0:
+		alien = &wv{k: wSym, s: "A"}
+	case 1:
+		alien = &wv{k: wList, list: []*wv{one()}}
+	case 2:
+		alien = &wv{k: wObj, keys: []string{"r"}, obj: map[string]*wv{"r": one()}}
+	default:
+		alien = &wv{k: wList, list: []*wv{{k: wSym, s: "A"}}}
+	}
+	w := alien
+	switch sym.Choice("position", 3) {
+	case 1: // as a list element
+		w = &wv{k: wList, list: []*wv{alien}}
+	case 2: // as the value of input field o: Int
+		w = &wv{k: wObj, keys: []string{"r", "o"}, obj: map[string]*wv{"r": one(), "o": alien}}
+	}
+	sym.Budget(3_000_000)
+	src, ik := c04Source(4, []int{0, 2})
+	c04Deliver(c.field, c.t, c.text, w, c.other, src, ik)
+}
+
 // C04_args_omitted: an argument left out entirely, or a variable left unset.
 func C04_args_omitted() {
 	n := &c04Node{}
@@ -1253,7 +1294,12 @@ func C04_args_pair() {
 	for _, k := range perm {
 		args += names[k] + ":" + vals[k] + " "
 	}
-	doc := "query($u:Int!){f2(" + args + ")}"
+	// (the variable is declared only where it is used: a required variable
+	// that is declared and not supplied is an error of its own)
+	doc := "{f2(" + args + ")}"
+	if bad == 0 && vals[0] == "$u" {
+		doc = "query($u:Int!)" + doc
+	}
 	sym.Observe("doc", doc)
 	res := root.ResolveString(doc, "", nil)
 	errs, _ := res["errors"].([]interface{})
